@@ -397,14 +397,24 @@ class Sim:
             if t.blocked_on is lock:
                 t.blocked_on = None
 
+    def apply_rlimit(self, me):
+        """the recursion limit is interpreter-wide: the task that holds the baton
+        installs its own (a lowered one while a stack-exhaustion fault is armed).
+        Always done by the resumed task itself, at its own depth - the task that
+        hands over may be hundreds of frames deep, where lowering the limit raises."""
+        try:
+            sys.setrecursionlimit(me.rlimit or self.base_rlimit)
+        except RecursionError:
+            pass
+
     def hand_over(self, me, target, park):
         global CNT
         self.cur = target
         CNT = target.cnt
-        sys.setrecursionlimit(target.rlimit or self.base_rlimit)
         target.gate.release()
         if park:
             me.gate.acquire()
+            self.apply_rlimit(me)
 
     def do_switch(self, me, to, where, check=False):
         target = self.pick(to, me)
@@ -589,6 +599,7 @@ class Sim:
 
     def task_main(self, me):
         me.gate.acquire()
+        self.apply_rlimit(me)
         try:
             for k, op in enumerate(me.ops):
                 b = self.boundary.get((me.idx, k))
